@@ -163,6 +163,7 @@ func doStreamCase(o *hx.Out, events []string) {
 	o.CountN("stream:obs:ok", strings.Count(res, "=ok"))
 	o.CountN("stream:obs:eof", strings.Count(res, "=eof"))
 	o.CountN("stream:obs:errsend", strings.Count(res, "=errsend"))
+	o.CountN("stream:obs:request-context-done", strings.Count(res, "=errctx"))
 	checkStreamSpec(o, events, res, "stream "+in)
 }
 
@@ -171,38 +172,76 @@ func genStreamCase(r *hx.Rng) []string {
 	var ev []string
 	broken := false
 	f := 0
-	outstanding := 0 // successfully sent requests not yet answered (an unsolicited response ends the receive loop)
+	// bookkeeping used only to shape the input: the successfully sent requests not yet answered, in order (an
+	// abandoned one keeps its place), whether the receive loop still runs, which sends failed
+	type pend struct {
+		id        int
+		abandoned bool
+	}
+	var queue []pend
+	var failedSends []int
+	recvAlive := true
 	for i := 0; i < n; i++ {
 		x := r.Intn(100)
 		switch {
-		case x < 42:
+		case x < 40:
 			f++
 			ok := !broken && r.Chance(95)
 			if !ok {
 				broken = true
+				failedSends = append(failedSends, f)
 			} else {
-				outstanding++
+				queue = append(queue, pend{id: f})
 			}
 			ev = append(ev, fmt.Sprintf("s%d:%d", f, map[bool]int{true: 1, false: 0}[ok]))
-		case x < 86:
-			if outstanding == 0 && !r.Chance(12) {
+		case x < 78:
+			if len(queue) == 0 && !r.Chance(12) {
 				continue
 			}
-			if outstanding > 0 {
-				outstanding--
+			if recvAlive {
+				if len(queue) > 0 {
+					queue = queue[1:]
+				} else {
+					recvAlive = false // an unsolicited response ends the receive loop
+				}
 			}
 			ev = append(ev, fmt.Sprintf("r%d", 100+i))
-		case x < 89:
+		case x < 88:
+			// per-request cancellation: of a request still on the wire, or (no effect) of a failed / unknown one
+			var live []int
+			for qi := range queue {
+				if !queue[qi].abandoned {
+					live = append(live, qi)
+				}
+			}
+			switch {
+			case len(live) > 0 && r.Chance(85):
+				qi := hx.Pick(r, live)
+				queue[qi].abandoned = true
+				ev = append(ev, fmt.Sprintf("c%d", queue[qi].id))
+			case len(failedSends) > 0 && r.Bool():
+				ev = append(ev, fmt.Sprintf("c%d", hx.Pick(r, failedSends)))
+			default:
+				ev = append(ev, "c999")
+			}
+		case x < 91:
 			ev = append(ev, "e")
-		case x < 94:
+			recvAlive = false
+		case x < 95:
 			ev = append(ev, "x")
 			broken = true
+			queue = nil
 		default:
 			// a burst of responses (possibly more than requests)
-			ev = append(ev, fmt.Sprintf("r%d", 200+i), fmt.Sprintf("r%d", 300+i))
-			outstanding -= 2
-			if outstanding < 0 {
-				outstanding = 0
+			for k := 0; k < 2; k++ {
+				ev = append(ev, fmt.Sprintf("r%d", 200+100*k+i))
+				if recvAlive {
+					if len(queue) > 0 {
+						queue = queue[1:]
+					} else {
+						recvAlive = false
+					}
+				}
 			}
 		}
 	}
@@ -500,6 +539,8 @@ func main() {
 		"batch 0 w:1:5:1000 - C1:g:0",     // wrongly typed call
 		"stream 0 1 s1:1,x,r7,x",
 		"stream 0 1 s1:1,s2:1,r10,s3:0,r20,r30,x",
+		"stream 0 1 s1:1,c1,s2:1,r10,r20,x", // abandoned request keeps its place in the FIFO
+		"stream 0 1 s1:1,s2:1,s3:1,c2,r10,r20,r30,c1,c999,x",
 		"merge 0 -",
 		"merge 0 E77|E77",
 		"listc 0 1 E5|k63:0,k64:0 F0,C,G1",
